@@ -99,7 +99,7 @@ func cmdCheck(args []string) int {
 	}
 	bud := *budget
 	if bud == 0 {
-		bud = 100 * time.Second
+		bud = 120 * time.Second
 		if tier == 1 {
 			bud = 25 * time.Minute
 		}
